@@ -965,3 +965,229 @@ Proof.
   intros a Ha. cbn [In] in Ha.
   repeat (destruct Ha as [<-|Ha]; [split; vm_compute; reflexivity|]). contradiction.
 Qed.
+
+(* ====================================================================================
+   store / load of one block
+   ==================================================================================== *)
+Definition regv (s : rstate) (r : N) : Z := match rget s r with Some v => v | None => 0 end.
+(* the register of slot n of environment position pos *)
+Definition pos_reg (n : tnum) (pos : nat) : N := (2 * N.of_nat pos + tnum_n n + RESERVED)%N.
+
+Lemma r_fresh_ok : forall n c t, r_fresh n c = Ok t -> t = pos_reg n (List.length c).
+Proof.
+  intros n c t H. unfold r_fresh, temporary_from_position in H.
+  destruct (N.ltb _ _); [|discriminate]. injection H as <-. reflexivity.
+Qed.
+Lemma pos_reg_reserved : forall n pos, (4 <= pos_reg n pos)%N.
+Proof. intros. unfold pos_reg. change RESERVED with 4%N. lia. Qed.
+Lemma pos_reg_inj : forall n n' p p', pos_reg n p = pos_reg n' p' -> n = n' /\ p = p'.
+Proof.
+  intros n n' p p' H. unfold pos_reg in H. change RESERVED with 4%N in H.
+  destruct n, n'; cbn [tnum_n] in H; split; try reflexivity; try lia.
+Qed.
+
+Lemma field_offset_val : forall n k, field_offset n k = 8 * (2 + 2 * Z.of_N k + Z.of_N (tnum_n n)).
+Proof. intros. unfold field_offset, address. change RVC.address1 with 8. reflexivity. Qed.
+Lemma field_valid : forall b n k, valid_block b -> (k < 3)%N -> valid_addr (b + field_offset n k).
+Proof.
+  intros b n k Hb Hk. rewrite field_offset_val. apply Hb. destruct n; cbn [tnum_n]; lia.
+Qed.
+Lemma field_fits12 : forall n k, (k < 3)%N -> fits12 (field_offset n k) = true.
+Proof.
+  intros n k Hk. rewrite field_offset_val. unfold fits12. destruct n; cbn [tnum_n]; apply andb_true_intro; split; apply Z.leb_le; lia.
+Qed.
+
+(* ---------- store_values: straight-line stores into the block HEAP points to ---------- *)
+Fixpoint sv_spec (s : rstate) (to_store_rev : list binding) (E : nat) (b : Z) (ff : N) (w : Z -> Z) : Z -> Z :=
+  match to_store_rev with
+  | [] => fold_left (fun w k => upd w (b + field_offset Fst k) 0) (nseq 0 ff) w
+  | x :: rest_rev =>
+      let L := (E + List.length rest_rev)%nat in
+      let w1 := upd w (b + field_offset Snd (ff - 1)) (regv s (pos_reg Snd L)) in
+      let w2 := upd w1 (b + field_offset Fst (ff - 1))
+                    (match bchi x with Ext => 0 | _ => regv s (pos_reg Fst L) end) in
+      sv_spec s rest_rev E b (ff - 1) w2
+  end.
+Fixpoint sv_defined (s : rstate) (to_store_rev : list binding) (E : nat) : Prop :=
+  match to_store_rev with
+  | [] => True
+  | x :: rest_rev =>
+      let L := (E + List.length rest_rev)%nat in
+      rget s (pos_reg Snd L) <> None /\ (bchi x <> Ext -> rget s (pos_reg Fst L) <> None) /\
+      sv_defined s rest_rev E
+  end.
+
+Lemma rget_regv : forall s r, rget s r <> None -> rget s r = Some (regv s r).
+Proof. intros s r H. unfold regv. destruct (rget s r); [reflexivity|contradiction]. Qed.
+
+Lemma nseq_succ : forall n, nseq 0 (N.succ n) = nseq 0 n ++ [n].
+Proof.
+  intros n. unfold nseq. rewrite N2Nat.inj_succ, seq_S, map_app. cbn. now rewrite N2Nat.id.
+Qed.
+
+Lemma store_zeros_exec : forall im ff i s s0 b,
+  (ff <= 3)%N -> at_code im i (store_zeros ff HEAP) ->
+  (forall r, rget s r = rget s0 r) -> rget s0 HEAP = Some b -> valid_block b ->
+  exists s', star im i s (padd i (List.length (store_zeros ff HEAP))) s' /\
+             (forall r, rget s' r = rget s0 r) /\
+             (forall a, hword s' a = fold_left (fun w k => upd w (b + field_offset Fst k) 0) (nseq 0 ff) (hword s) a).
+Proof.
+  intros im ff. induction ff as [|ff IH] using N.peano_ind; intros i s s0 b Hff Hcode Hregs Hb Hvb.
+  - exists s. cbn. repeat split; auto. apply star_refl.
+  - unfold store_zeros in *. rewrite nseq_succ in *. rewrite flat_map_app in *. cbn [flat_map store_zero app] in *.
+    apply at_code_app in Hcode as [Hc1 Hc2].
+    destruct (IH i s s0 b ltac:(lia) Hc1 Hregs Hb Hvb) as (s1 & Hs1 & Hr1 & Hw1).
+    eexists. split; [|split].
+    + rewrite app_length, padd_add. eapply star_trans; [exact Hs1|].
+      exec_next Hc2 0%nat step_SW; [rewrite Hr1; exact Hb | rewrite Hr1; reflexivity | apply field_fits12; lia | apply field_valid; [assumption|lia] |].
+      apply star_refl.
+    + intros r. regs. apply Hr1.
+    + intros a. rewrite fold_left_app. cbn [fold_left].
+      rewrite hword_sstore by (apply valid_pos, field_valid; [assumption|lia]).
+      unfold upd. destruct (a =? b + field_offset Fst ff); [reflexivity|apply Hw1].
+Qed.
+
+Theorem rv_store_values_refines : forall im to_store_rev remaining ff cs i s s0 b,
+  store_values to_store_rev remaining HEAP ff = Ok cs ->
+  (N.of_nat (List.length to_store_rev) <= ff)%N -> (ff <= 3)%N ->
+  at_code im i cs ->
+  (forall r, rget s r = rget s0 r) -> rget s0 HEAP = Some b -> valid_block b ->
+  sv_defined s0 to_store_rev (List.length remaining) ->
+  exists s',
+    star im i s (padd i (List.length cs)) s' /\
+    (forall r, rget s' r = rget s0 r) /\
+    (forall a, hword s' a = sv_spec s0 to_store_rev (List.length remaining) b ff (hword s) a).
+Proof.
+  intros im to_store_rev. induction to_store_rev as [|x rest_rev IH]; intros remaining ff cs i s s0 b Hsv Hlen Hff Hcode Hregs Hb Hvb Hdef.
+  - cbn [store_values] in Hsv. injection Hsv as <-. cbn [sv_spec]. now apply store_zeros_exec.
+  - cbn [store_values] in Hsv. cbn [List.length] in Hlen.
+    destruct (store_value x (remaining ++ rev rest_rev) HEAP (ff - 1)) as [c1|] eqn:E1; [|discriminate]. cbn [rbind] in Hsv.
+    destruct (store_values rest_rev remaining HEAP (ff - 1)) as [c2|] eqn:E2; [|discriminate]. cbn [rbind] in Hsv.
+    injection Hsv as <-.
+    cbn [sv_defined] in Hdef. destruct Hdef as (Hd1 & Hd2 & Hd3).
+    assert (HL : List.length (remaining ++ rev rest_rev) = (List.length remaining + List.length rest_rev)%nat)
+      by (rewrite app_length, rev_length; reflexivity).
+    apply at_code_app in Hcode as [Hc1 Hc2].
+    assert (Hk : (ff - 1 < 3)%N) by lia.
+    (* the two stores of this value *)
+    assert (H1 : exists s1, star im i s (padd i (List.length c1)) s1 /\ (forall r, rget s1 r = rget s0 r) /\
+                 (forall a, hword s1 a =
+                    upd (upd (hword s) (b + field_offset Snd (ff - 1)) (regv s0 (pos_reg Snd (List.length remaining + List.length rest_rev))))
+                        (b + field_offset Fst (ff - 1))
+                        (match bchi x with Ext => 0 | _ => regv s0 (pos_reg Fst (List.length remaining + List.length rest_rev)) end) a)).
+    { unfold store_value, store_field in E1.
+      destruct (r_fresh Snd (remaining ++ rev rest_rev)) as [tS|] eqn:ES; [|discriminate]. cbn [rbind] in E1.
+      apply r_fresh_ok in ES. rewrite HL in ES. subst tS.
+      destruct (bchi x) eqn:Echi.
+      3:{ (* Ext: the first slot is zeroed *)
+        injection E1 as <-. cbn [app store_zero] in *.
+        eexists. split; [|split].
+        - exec_next Hc1 0%nat step_SW; [rewrite Hregs; exact Hb | rewrite Hregs; apply rget_regv; exact Hd1 | now apply field_fits12 | now apply field_valid |].
+          exec_next Hc1 1%nat step_SW; [regs; rewrite Hregs; exact Hb | reflexivity | now apply field_fits12 | now apply field_valid |].
+          apply star_refl.
+        - intros r. regs. apply Hregs.
+        - intros a. rewrite !hword_sstore by (apply valid_pos; now apply field_valid). unfold upd. reflexivity. }
+      all: destruct (r_fresh Fst (remaining ++ rev rest_rev)) as [tF|] eqn:EF; [|discriminate]; cbn [rbind] in E1;
+           apply r_fresh_ok in EF; rewrite HL in EF; subst tF; injection E1 as <-; cbn [app] in *;
+           (eexists; split; [|split];
+            [ exec_next Hc1 0%nat step_SW; [rewrite Hregs; exact Hb | rewrite Hregs; apply rget_regv; exact Hd1 | now apply field_fits12 | now apply field_valid |];
+              exec_next Hc1 1%nat step_SW; [regs; rewrite Hregs; exact Hb | regs; rewrite Hregs; apply rget_regv; apply Hd2; discriminate | now apply field_fits12 | now apply field_valid |];
+              apply star_refl
+            | intros r; regs; apply Hregs
+            | intros a; rewrite !hword_sstore by (apply valid_pos; now apply field_valid); unfold upd; reflexivity ]). }
+    destruct H1 as (s1 & Hs1 & Hr1 & Hw1).
+    destruct (IH remaining (ff - 1)%N c2 (padd i (List.length c1)) s1 s0 b E2 ltac:(lia) ltac:(lia) Hc2 Hr1 Hb Hvb Hd3)
+      as (s2 & Hs2 & Hr2 & Hw2).
+    exists s2. split; [|split].
+    + rewrite app_length, padd_add. eapply star_trans; eassumption.
+    + exact Hr2.
+    + intros a. rewrite Hw2. cbn [sv_spec].
+      (* the spec only depends on the word function extensionally *)
+      assert (Hext : forall l E0 ff0 w w', (forall a, w a = w' a) -> forall a, sv_spec s0 l E0 b ff0 w a = sv_spec s0 l E0 b ff0 w' a).
+      { clear. induction l as [|y l IHl]; intros E0 ff0 w w' Hww a; cbn [sv_spec].
+        - revert w w' Hww a. induction (nseq 0 ff0) as [|k ks IHk]; intros w w' Hww a; cbn [fold_left]; [apply Hww|].
+          apply IHk. intros a'. unfold upd. destruct (a' =? _); [reflexivity|apply Hww].
+        - apply IHl. intros a'. unfold upd. repeat destruct (a' =? _); try reflexivity. apply Hww. }
+      apply Hext. exact Hw1.
+Qed.
+
+(* ---------- store (of at most FIELDS_PER_BLOCK values): store_values, then acquire_block ---------- *)
+Lemma r_store_one_block : forall to_store remaining lc cs lc',
+  to_store <> [] -> (List.length to_store <= 3)%nat ->
+  r_store to_store remaining lc = Ok (cs, lc') ->
+  exists sv,
+    store_values (rev to_store) remaining HEAP 3 = Ok sv /\
+    cs = sv ++ fst (acquire_block (pos_reg Fst (List.length remaining)) (pos_reg Snd (List.length remaining)) lc) /\
+    lc' = snd (acquire_block (pos_reg Fst (List.length remaining)) (pos_reg Snd (List.length remaining)) lc).
+Proof.
+  intros to_store remaining lc cs lc' Hne Hlen H.
+  unfold r_store in H. cbn [store_fields] in H.
+  destruct to_store as [|x r]; [contradiction|].
+  change (FIELDS_PER_BLOCK - bp_n Last)%N with 3%N in H.
+  assert (Hle : N.leb (N.of_nat (List.length (x :: r))) 3 = true) by (apply N.leb_le; lia).
+  rewrite Hle in H. change (N.to_nat 0) with 0%nat in H. cbn [firstn skipn] in H.
+  rewrite app_nil_r in H. cbn [rbind] in H.
+  destruct (store_values (rev (x :: r)) remaining HEAP 3) as [sv|] eqn:Esv; [|discriminate]. cbn [rbind] in H.
+  destruct (r_fresh Fst remaining) as [t|] eqn:Et; [|discriminate]. cbn [rbind] in H.
+  destruct (r_fresh Snd remaining) as [t2|] eqn:Et2; [|discriminate]. cbn [rbind] in H.
+  apply r_fresh_ok in Et. apply r_fresh_ok in Et2. subst t t2.
+  destruct (acquire_block (pos_reg Fst (List.length remaining)) (pos_reg Snd (List.length remaining)) lc) as [c2 lc2] eqn:EA.
+  cbn [List.length store_fields rbind] in H. injection H as <- <-.
+  exists sv. split; [reflexivity|]. cbn [fst snd]. now rewrite app_nil_r.
+Qed.
+
+(* The code emitted for `let`/`create` storing 1..3 values: the values of the last |to_store|
+   environment positions are written into the block HEAP points to (unused first slots zeroed,
+   first slot of an integer field zeroed), then the block is acquired into the first register of
+   the position after the remaining context and HEAP/FREE are re-established as the abstract
+   `acquire` says.  Registers of the remaining context are untouched. *)
+Theorem rv_store_one_block_refines : forall im i to_store remaining lc cs lc' s h,
+  to_store <> [] -> (List.length to_store <= 3)%nat ->
+  r_store to_store remaining lc = Ok (cs, lc') ->
+  placed im i cs ->
+  represents s h -> valid_block (hp h) ->
+  sv_defined s (rev to_store) (List.length remaining) ->
+  let h1 := {| words := sv_spec s (rev to_store) (List.length remaining) (hp h) 3 (words h); hp := hp h; fp := fp h |} in
+  (words h1 (hp h) = 0 -> valid_block (fp h)) ->
+  (words h1 (hp h) = 0 -> words h1 (fp h) <> 0 ->
+     children_ok (fp h) [0; 1; 2]%N {| words := upd (words h1) (fp h) 0; hp := fp h; fp := words h1 (fp h) |}) ->
+  exists s',
+    star im i s (padd i (List.length cs)) s' /\
+    represents s' (snd (a_acquire h1)) /\
+    rget s' (pos_reg Fst (List.length remaining)) = Some (hp h) /\
+    (forall r, (4 <= r)%N -> (r < pos_reg Fst (List.length remaining))%N -> rget s' r = rget s r).
+Proof.
+  intros im i to_store remaining lc cs lc' s h Hne Hlen Hst Hpl Hrep Hvb Hdef h1 Hc3 Hc2.
+  destruct (r_store_one_block _ _ _ _ _ Hne Hlen Hst) as (sv & Hsv & -> & _).
+  apply placed_app in Hpl as [[Hcsv _] Hpacq].
+  destruct Hrep as (Hw & Hhp & Hfp).
+  destruct (rv_store_values_refines im (rev to_store) remaining 3 sv i s s (hp h) Hsv
+              ltac:(rewrite rev_length; lia) ltac:(lia) Hcsv (fun r => eq_refl) Hhp Hvb Hdef) as (s1 & Hs1 & Hr1 & Hw1).
+  set (t := pos_reg Fst (List.length remaining)) in *. set (t2 := pos_reg Snd (List.length remaining)) in *.
+  pose proof (pos_reg_reserved Fst (List.length remaining)) as Ht4.
+  pose proof (pos_reg_reserved Snd (List.length remaining)) as Hu4.
+  assert (Hrep1 : represents s1 h1).
+  { unfold h1. split; [|split]; cbn [words hp fp].
+    - intros a. rewrite Hw1.
+      assert (Hext : forall l E0 ff0 w w', (forall a, w a = w' a) -> forall a, sv_spec s l E0 (hp h) ff0 w a = sv_spec s l E0 (hp h) ff0 w' a).
+      { clear. induction l as [|y l IHl]; intros E0 ff0 w w' Hww a; cbn [sv_spec].
+        - revert w w' Hww a. induction (nseq 0 ff0) as [|k ks IHk]; intros w w' Hww a; cbn [fold_left]; [apply Hww|].
+          apply IHk. intros a'. unfold upd. destruct (a' =? _); [reflexivity|apply Hww].
+        - apply IHl. intros a'. unfold upd. repeat destruct (a' =? _); try reflexivity. apply Hww. }
+      apply Hext. exact Hw.
+    - rewrite Hr1. exact Hhp.
+    - rewrite Hr1. exact Hfp. }
+  assert (Hvr : valid_addr (hp h1)).
+  { cbn [hp h1]. replace (hp h) with (hp h + 8 * 0) by lia. apply Hvb. lia. }
+  destruct (rv_acquire_block_refines im (padd i (List.length sv)) t t2 lc s1 h1 Hpacq) as (s2 & Hs2 & Hrep2 & Ht2 & Hfr2);
+    try assumption;
+    try (unfold t, t2, ZERO, TEMP, HEAP, FREE; cbn; intro Heq; rewrite Heq in *; lia).
+  - unfold t, t2. intro Heq. apply pos_reg_inj in Heq as [Heq _]. discriminate.
+  - exists s2. split; [|split; [|split]].
+    + rewrite app_length, padd_add. eapply star_trans; eassumption.
+    + exact Hrep2.
+    + rewrite Ht2. unfold a_acquire. cbn [hp h1]. destruct (negb _); [reflexivity|]. destruct (_ =? 0); reflexivity.
+    + intros r Hr4 Hrt. rewrite Hfr2; [apply Hr1| | | | |];
+        intro Heq; subst r; unfold t, t2, pos_reg in *; cbn [tnum_n] in *;
+        change RESERVED with 4%N in *; change TEMP with 1%N in *; change HEAP with 2%N in *; change FREE with 3%N in *; lia.
+Qed.
